@@ -59,10 +59,14 @@ Definition spec (i : input) (o : observed) : bool :=
    option slices, configs and of course the package defaults) *)
 Definition separate (a b : op) : bool :=
   forallb (fun j => negb (existsb (Nat.eqb j) (tids a))) (tids b).
+(* what isolation really needs (weaker, computed from the table): the other groups write
+   nothing this group's writes or results depend on.  Requests on ONE instance qualify, and so
+   do instances that share mutex-protected state nobody's result depends on. *)
+Definition disjb (a b : list loc) : bool := forallb (fun x => negb (existsb (loc_eqb x) b)) a.
 Definition wf (i : input) : bool :=
   match i with
   | IOrder _ l probes =>
-      forallb (fun p => forallb (fun q => (fst p =? fst q) || separate (snd p) (snd q)) l) (l ++ probes)
+      forallb (fun p => forallb (fun q => (fst p =? fst q) || disjb (writes (snd q)) (deps (snd p))) l) (l ++ probes)
   | _ => true
   end.
 
@@ -80,9 +84,9 @@ Definition obs_eqb (a b : observed) : bool :=
 Definition op_class (o : op) : nat :=
   match o with
   | NewProvider _ _ [] => 1 | NewProvider _ _ _ => 2 | NewLegacyServer _ _ => 3
-  | NewRPOIDC _ _ _ => 4 | NewRPOAuth _ _ _ => 5 | NewRS _ _ _ => 6 | NewTE _ _ _ => 7 | NewKeySet _ _ => 8
+  | NewRPOIDC _ _ _ _ => 4 | NewRPOAuth _ _ _ => 5 | NewRS _ _ _ _ => 6 | NewTE _ _ _ _ => 7 | NewKeySet _ _ _ => 8
   | ProvReq _ _ _ => 9 | DevGetAudience _ => 10 | RPCall _ _ _ => 11 | RSIntrospect _ _ => 12
-  | TEExchange _ _ => 13 | KSVerify _ _ => 14 | ClientCall _ _ => 15
+  | TEExchange _ _ => 13 | KSVerify _ _ => 14 | ClientCall _ _ => 15 | HandlerReq _ _ _ _ => 16
   end.
 Definition path (i : input) (o : observed) : nat :=
   match i with
